@@ -120,6 +120,7 @@ func (g *Goroutine) callBuiltin(fr *frame, b *ssa.Builtin, args []Value) Value {
 		}
 		elem := b.Type().(*types.Signature).Params().At(0).Type().Underlying().(*types.Slice).Elem()
 		nc := growCap(elem, need, cap(base))
+		g.p.allocBytes += int64(nc) * gcSizes.Sizeof(elem)
 		out := make([]Value, need, nc)
 		copy(out, base)
 		for i, v := range add {
